@@ -133,3 +133,12 @@ Theorem C18_include_nested_fails : forall load_file incs sk k2 f2 doc t1 sub n2 
   process load_file (ISchema incs [(sk, ISchema [(k2, f2)] [])]) doc = Err e.
 Proof. exact include_nested_fails. Qed.
 Print Assumptions C18_include_nested_fails.
+
+(* ---- idempotence: merging a tree (distinct keys at every level) into itself changes nothing ---- *)
+Theorem C18_merge_idem : forall v, twf v -> merge_val (Some v) v = v.
+Proof. exact merge_idem. Qed.
+Print Assumptions C18_merge_idem.
+
+Theorem C18_combine_idem : forall m, twf (TMap m) -> combine m m = m.
+Proof. exact combine_idem. Qed.
+Print Assumptions C18_combine_idem.
